@@ -12,6 +12,7 @@ import z3
 import opendsm.eemeter.models.billing.data as bd
 import opendsm.eemeter.models.daily.data as dd
 from symv import engine as E
+from symv import fpfacts as FPF
 from symv.case import Case, close, close_sum
 from symv.proxies import NAN, SReal, is_nan, lift, model_env, real, to_real
 from symv.symarray import SymArray, cells
@@ -45,6 +46,8 @@ def cases(tier, seed):
     out = [f"{k}|{z}|{s}" for k in ("fn", "class") for z in zones for s in ("15", "30", "60")] + [f"daily|{z}|D" for z in zones[:2]]
     cals = ["30-31-28", "24-30-36", "60-61", "30-71"] + (["25-35-35", "70-25"] if tier == "thorough" else [])
     out += [f"billing|UTC|{c}" for c in cals] + ["billing|US/Pacific|30-71", "billing|US/Pacific|fall-35"]
+    if tier == "thorough":
+        out.append("fp|half|x" + ("|x" if False else ""))
     return out
 
 
@@ -183,10 +186,12 @@ def replay_usage(inp):
     return bool(pr), "; ".join(pr[:3])
 
 
-REPLAY = {"usage": replay_usage}
+REPLAY = {"usage": replay_usage, "fp_half": FPF.replay_half}
 
 
 def run_case(case: Case, name: str):
+    if name.startswith("fp|"):
+        return FPF.half_lemma(case, 1500, "minute atoms of a local day: coverage = n_coverage / n_total in as_freq")
     kind, zone, arg = name.split("|")
     days = 4 if case.tier == "thorough" else 3
     if kind in ("fn", "class"):
